@@ -1,0 +1,117 @@
+//go:build verif
+
+// Contracts for package mailbox, checked by /verif/govc. This file contains no
+// code: with the verif tag off it is not compiled at all, with it on it adds
+// only comments.
+package mailbox
+
+/*@
+# ---------------------------------------------------------------------------
+# C12 path confinement / C11 crash safety
+#   every file-system call that creates, modifies or renames goes to a path
+#   confined(h.MBoxPath, .); message files are only ever published by a rename
+#   of a completely written dot-prefixed temporary file in the same directory.
+# ---------------------------------------------------------------------------
+
+func mailbox.validMID(mid) (r)
+  props C12 C10
+  ensures safe: r ==> SafeName(mid)
+  ensures rejects: (len(mid) == 0 || mid == "." || mid == "..") ==> !r
+
+ghost var gTmp string
+ghost var gWriteDone bool
+ghost var gWriteErr error
+ghost var gRenamed bool
+
+func mailbox.writeFileAtomic(filename, data, perm) (err)
+  props C11 C12
+  forbid os. except os.Rename, os.Remove
+  forbid ioutil. except ioutil.WriteFile
+  call path.Join requires safe-temp-name: len($0) == 2 && SafeName($0[1]) && $0[1][0] == '.'
+  call path.Join set gTmp := $r0
+  call ioutil.WriteFile requires temp-name: len(baseName($0)) >= 1 && baseName($0)[0] == '.'
+  call ioutil.WriteFile requires same-dir: same($0, gTmp) && inDir($0, proj(path.Split(filename), 0)) && inDir(filename, proj(path.Split(filename), 0))
+  call ioutil.WriteFile requires whole-data: same($1, data)
+  call ioutil.WriteFile set gWriteDone := true
+  call ioutil.WriteFile set gWriteErr := $r0
+  call os.Remove requires only-temp: same($0, gTmp)
+  call os.Rename requires complete-first: gWriteDone && gWriteErr == nil
+  call os.Rename requires publish: same($0, gTmp) && same($1, filename)
+  call os.Rename set gRenamed := true
+  requires name: len(baseName(filename)) > 0
+  ensures published: err == nil ==> gRenamed
+  ensures write-error: gWriteErr != nil ==> err == gWriteErr && !gRenamed
+
+func mailbox.(*DirHandler).AddOut(h, msg) (err)
+  props C11 C10
+  requires msg: msg != nil
+  requires local-mid: SafeName(fbb.(*Message).MID(msg))
+  call path.Join requires safe-name: len($0) == 3 && SafeName($0[2])
+  forbid os.
+  forbid ioutil.
+
+func mailbox.(*DirHandler).ProcessInbound(h, msgs) (err)
+  props C11 C12 C10 C02
+  requires msgs: forall k :: 0 <= k && k < len(msgs) ==> msgs[k] != nil
+  forbid os.
+  forbid ioutil.
+  call path.Join#1 requires safe-name: len($0) == 2 && SafeName($0[1])
+  call mailbox.writeFileAtomic requires within: confined(h.MBoxPath, $0)
+  call mailbox.writeFileAtomic requires name: len(baseName($0)) > 0
+  call mailbox.writeFileAtomic set gStored := true
+  call mailbox.writeFileAtomic set gStoreErr := $r0
+  ensures error-propagates: gStoreErr != nil ==> err != nil
+
+ghost var gStored bool
+ghost var gStoreErr error
+
+func mailbox.(*DirHandler).GetInboundAnswer(h, p) (a)
+  props C12 C10
+  forbid os. except os.Open, os.(*File).Close, os.IsNotExist
+  forbid ioutil.
+  call os.Open requires within: confined(h.MBoxPath, $0)
+  call os.Open set gOpenErr := $r1
+  call os.Open set gOpened := true
+  ensures send-only: h.sendOnly ==> a == '='
+  ensures answer: a == '+' || a == '-' || a == '='
+  ensures reject-iff-present: !h.sendOnly && gOpened ==> (a == '-' <==> gOpenErr == nil)
+
+ghost var gOpenErr error
+ghost var gOpened bool
+
+func mailbox.(*DirHandler).SetSent(h, MID, rejected) ()
+  props C12 C11 C10
+  forbid os. except os.Rename
+  forbid ioutil.
+  call os.Rename requires within: confined(h.MBoxPath, $0) && confined(h.MBoxPath, $1)
+
+
+func mailbox.(*DirHandler).SetDeferred(h, MID) ()
+  props C12 C10
+  requires prepared: h.deferred != nil
+  forbid os.
+  forbid ioutil.
+  ensures deferred: haskey(h.deferred, MID)
+
+func mailbox.(*DirHandler).Prepare(h) (err)
+  props C10
+  ensures fresh-deferrals: h.deferred != nil && (forall k :: !haskeyid(h.deferred, k))
+
+# GetOutbound: every message that is returned went through the removal of the
+# three mailbox-private headers in the same loop iteration
+ghost var gStrip1 *fbb.Message
+ghost var gStrip2 *fbb.Message
+ghost var gStrip3 *fbb.Message
+
+func mailbox.(*DirHandler).GetOutbound(h, fws) (out)
+  props C10
+  requires prepared: h.deferred != nil
+  call fbb.(Header).Del#0 requires p2p: $1 == "X-P2POnly"
+  call fbb.(Header).Del#0 set gStrip1 := m
+  call fbb.(Header).Del#1 requires path: $1 == "X-FilePath"
+  call fbb.(Header).Del#1 set gStrip2 := m
+  call fbb.(Header).Del#2 requires unread: $1 == "X-Unread"
+  call fbb.(Header).Del#2 set gStrip3 := m
+  at append requires stripped: len($1) == 1 && $1[0] == m && gStrip1 == m && gStrip2 == m && gStrip3 == m
+  at append requires not-deferred: !haskey(h.deferred, fbb.(*Message).MID(m)) || !h.deferred[fbb.(*Message).MID(m)]
+@*/
